@@ -8,6 +8,7 @@ CONSTANTS
   Fmts = {"bc"}
   NFiles = {1}
   Lazy = {"none"}
+  ProbeMax = 5
   Touches = {"lookup", "getitem"}
   Variant = "circle_noN"
 INVARIANT TypeOK
